@@ -98,6 +98,7 @@ pub struct Stats {
     pub max_ticks: u64,
     pub samples: Vec<Value>,
     pub metamorphic_pairs: u64,
+    pub trees_compared: u64,
 }
 
 impl Out {
@@ -127,6 +128,7 @@ impl Out {
         let mut line = json!({"ev": "Call", "e": e, "chars": abstract_chars(input), "len": input.chars().count(),
                           "ph": ph.abstract_json(), "st": o.status(), "val": val, "canon": o.canon(),
                           "ticks": t.total(), "tk": {"lex": t.lex, "parse": t.parse, "eval": t.eval, "loops": t.loops}, "claim": claim});
+        if let Some(g) = crate::call::last_tree() { if let Some(sh) = crate::ast::shape_of_debug(&g) { line["ast"] = sh; } }
         if let Some(v) = &self.vocab_for_events {
             // the events of the call just made (this thread): the step-level trace of the parser (spec/ParserTrace.tla)
             let pev: Vec<Value> = crate::call::last_events().iter().map(|x| crate::vocab::abstract_event(v, x)).collect();
@@ -178,6 +180,25 @@ pub fn checked_call(out: &mut Out, e: &str, input: &str, ph: &Val, exp: Option<&
         out.finding("budget", e, input, ph, "steps <= 4096+256*len", &format!("{} steps", t.total()), ctx.clone());
     }
     let mut force = false;
+    // the tree the code's parser built against the tree of the specification's parser (no oracle involved)
+    if let (Some(x), true) = (exp, o.returned()) {
+        let got = crate::call::last_tree();
+        out.stats.trees_compared += 1;
+        match (&x.shape, &got) {
+            (Some(want), Some(g)) => {
+                let gs = crate::ast::shape_of_debug(g);
+                if gs.as_ref() != Some(want) {
+                    out.finding("ast", e, input, ph, &format!("the parser builds {}", want), &format!("{}", gs.unwrap_or(Value::String(g.clone()))), ctx.clone());
+                    force = true;
+                }
+            }
+            (None, Some(g)) if x.no_tree => {
+                out.finding("ast", e, input, ph, "the parser returns no tree (the grammar rejects the input)", &format!("{}", crate::ast::shape_of_debug(g).unwrap_or(Value::String(g.clone()))), ctx.clone());
+                force = true;
+            }
+            _ => {}
+        }
+    }
     match exp {
         Some(x) => {
             out.stats.compared += 1;
@@ -209,7 +230,7 @@ pub fn checked_call(out: &mut Out, e: &str, input: &str, ph: &Val, exp: Option<&
 
 /// expectation for an input the specification rejects
 pub fn reject_exp() -> crate::expect::Exp {
-    crate::expect::Exp { res: Err(crate::refsem::Stop::Err("rejected by the grammar")), prec: Default::default(), ops: 0 }
+    crate::expect::Exp { res: Err(crate::refsem::Stop::Err("rejected by the grammar")), prec: Default::default(), ops: 0, shape: None, no_tree: true }
 }
 
 pub struct Beh {
@@ -417,7 +438,7 @@ pub fn replay_base(out: &mut Out, v: &Vocab, e: &str, b: &Beh, pols: &[Policy], 
             if b.raw.get("comp").is_some() { if let (Some(t), Some(sc)) = (&b.tree, &out.scope) { if !sc.covers(t, &r.asg) { break; } } }
             let exp = match &b.tree {
                 Some(t) if out.scope.as_ref().map_or(false, |sc| !sc.covers(t, &r.asg)) =>
-                    crate::expect::Exp { res: Err(crate::refsem::Stop::Unspec("OutsideStatementOfProperty")), prec: Default::default(), ops: 0 },
+                    crate::expect::Exp { res: Err(crate::refsem::Stop::Unspec("OutsideStatementOfProperty")), prec: Default::default(), ops: 0, shape: Some(crate::ast::rust_shape(t, &r.asg)), no_tree: false },
                 Some(t) => expected(e, t, &r.asg, ph),
                 None => reject_exp(),
             };
